@@ -254,6 +254,98 @@ theorem packet_unsubscribe (b : B) (c : Nat) (cn : Conn) (s : Sess) (id : Nat) (
   unfold packet
   simp only [hc, ha, hs, Bool.not_true, Bool.false_eq_true, ↓reduceIte]
 
+/-! ### the fan-out loop -/
+
+/-- what connection `d` is sent for message `p` at effective QoS `q`: the
+publisher's DUP bit and packet identifier (none at QoS 0), RETAIN cleared,
+topic and payload as received -/
+def fwdConn (p : Pub) (q : Nat) : Pub :=
+  { dup := p.dup, qos := q, retain := false, topic := p.topic, pktid := if q = 0 then 0 else p.pktid, payload := p.payload }
+
+theorem encode_plain (m : Msg) (ctr : Nat) (ht : m.p.topic ≠ []) (hid : m.p.pktid ≠ 0 ∨ m.p.qos = 0) :
+    m.encode ctr = some ({ m.p with pktid := if m.p.qos = 0 then 0 else m.p.pktid }, m, ctr) := by
+  obtain ⟨⟨dup, qos, retain, topic, pktid, payload⟩, dirty⟩ := m
+  simp only at ht hid
+  unfold Msg.encode
+  have hte : topic.isEmpty = false := by cases topic <;> simp_all
+  cases dirty with
+  | false =>
+    by_cases hq : qos = 0 <;> simp [hq]
+  | true =>
+    simp only [Bool.not_true, Bool.false_eq_true, ↓reduceIte, hte]
+    by_cases hq : qos = 0
+    · simp [hq]
+    · have hp : pktid ≠ 0 := by rcases hid with h | h; exact h; exact absurd h hq
+      simp [hq, hp]
+
+theorem deliverConn_char (b : B) (d : Nat) (m : Msg) (hal : b.alive d = true) (ht : m.p.topic ≠ [])
+    (hid : m.p.pktid ≠ 0 ∨ m.p.qos = 0) :
+    deliverConn b d m = (b, m, [.send d (.publish (fwdConn m.p m.p.qos))]) := by
+  obtain ⟨⟨dup, qos, retain, topic, pktid, payload⟩, dirty⟩ := m
+  simp only at ht hid
+  unfold deliverConn
+  simp only [hal, Bool.not_true, Bool.false_eq_true, ↓reduceIte]
+  cases retain with
+  | false =>
+    simp only [Bool.false_eq_true, ↓reduceIte]
+    rw [encode_plain _ b.ctr ht hid]
+    rfl
+  | true =>
+    simp only [↓reduceIte]
+    rw [encode_plain _ b.ctr ht hid]
+    rfl
+
+/-- what subscriber `sq.1` is handed for message `p` at effective QoS `sq.2`:
+a connection is sent `fwdConn`; an in-process callback is called with the
+message object as it is, RETAIN included (finding E10) -/
+def fwd (p : Pub) (sq : Nat × Nat) : Out :=
+  if sq.1 < cbBase then .send sq.1 (.publish (fwdConn p sq.2)) else .call sq.1 { p with qos := sq.2 }
+
+theorem fwd_qos (p : Pub) (q : Nat) (sq : Nat × Nat) : fwd { p with qos := q } sq = fwd p sq := rfl
+
+theorem setQoS_p (m : Msg) (q : Nat) : (m.setQoS q).p = { m.p with qos := q } := rfl
+
+/-- (d) the fan-out loop, for a message that has an identifier or needs none,
+and a subscriber list whose connections are all alive: outputs in list order,
+one per entry; the broker state is unchanged; of the message object only the
+QoS field (and `dirty`) differs afterwards. -/
+theorem fanout_char (subs : List (Nat × Nat)) :
+    ∀ (b : B) (m : Msg), m.p.topic ≠ [] → (m.p.pktid ≠ 0 ∨ ∀ sq ∈ subs, sq.2 = 0) →
+      (∀ sq ∈ subs, sq.1 < cbBase → b.alive sq.1 = true) →
+      (fanout b m subs).1 = b ∧
+      (fanout b m subs).2.1.p = { m.p with qos := subs.foldl (fun _ sq => sq.2) m.p.qos } ∧
+      (fanout b m subs).2.2 = subs.map (fwd m.p) := by
+  induction subs with
+  | nil => intro b m _ _ _; exact ⟨rfl, rfl, rfl⟩
+  | cons sq rest ih =>
+    intro b m ht hid hal
+    obtain ⟨s, eqos⟩ := sq
+    have hid' : (m.setQoS eqos).p.pktid ≠ 0 ∨ ∀ sq ∈ rest, sq.2 = 0 := by
+      rcases hid with h | h
+      · exact Or.inl h
+      · exact Or.inr (fun sq hsq => h sq (List.mem_cons_of_mem _ hsq))
+    have hal' : ∀ sq ∈ rest, sq.1 < cbBase → b.alive sq.1 = true :=
+      fun sq hsq => hal sq (List.mem_cons_of_mem _ hsq)
+    unfold fanout
+    by_cases hs : s < cbBase
+    · have hd := deliverConn_char b s (m.setQoS eqos) (hal (s, eqos) (by simp) hs) ht (by
+        rcases hid with h | h
+        · exact Or.inl h
+        · exact Or.inr (h (s, eqos) (by simp)))
+      simp only [hs, ↓reduceIte, hd]
+      obtain ⟨h1, h2, h3⟩ := ih b (m.setQoS eqos) ht hid' hal'
+      refine ⟨h1, ?_, ?_⟩
+      · rw [h2]; rfl
+      · rw [h3]
+        simp only [List.map_cons, setQoS_p, fwd_qos]
+        simp [fwd, hs, fwdConn]
+    · simp only [hs, ↓reduceIte]
+      obtain ⟨h1, h2, h3⟩ := ih b (m.setQoS eqos) ht hid' hal'
+      refine ⟨h1, ?_, ?_⟩
+      · rw [h2]; rfl
+      · rw [h3]
+        simp only [List.map_cons, setQoS_p, fwd_qos]
+        simp [fwd, hs, fwdConn]
 /-! ### the representation invariant -/
 
 /-- Representation invariant of the broker model: both tries have unique map
